@@ -3,20 +3,12 @@
    document (RenderDoc: DOM -> render tree -> estimates -> step machine -> finalise) is compared with
    the result observed from the real library, run by run.  Disagreement is *drift* (the model or the
    code moved), never by itself a violation: verdicts come from Props. *)
-EXTENDS Render, Json, IOUtils, TLCExt
+EXTENDS KnownFindings, Json, IOUtils, TLCExt
 VARIABLES l
 Rec == ndJsonDeserialize(IOEnv.TRACE)
 N == Len(Rec)
-ObsLines(res) == [i \in 1..Len(res.lines) |-> res.lines[i]]
-Agree(c, run) ==
-  LET m == RenderDoc(c.doms[run.d], run.cfg, run.w)
-      rich == run.route \in {"lines", "staged_lines"} IN
-  IF run.res.k \notin {"ok", "narrow"} THEN m.k = "panic"
-  ELSE /\ m.k = run.res.k
-       /\ m.k = "ok" =>
-            IF rich /\ run.cfg.deco = "rich"
-            THEN m.lines = run.res.lines
-            ELSE [i \in 1..Len(m.lines) |-> Plain(NoFrags(m.lines[i]))] = [i \in 1..Len(run.res.lines) |-> Plain(NoFrags(run.res.lines[i]))]
+\* panics / crashes are no result of the specification
+Agree(c, run) == IF run.res.k \notin {"ok", "narrow"} THEN FALSE ELSE ModelAgrees(c, run)
 InScope(c) == "crash" \notin DOMAIN c /\ \A i \in 1..Len(c.runs) : c.runs[i].w >= 0 /\ LET d == c.doms[c.runs[i].d] IN ~(Len(d) = 1 /\ d[1].k \in {"big", "none"})
 AgreeCase(c) == \A i \in 1..Len(c.runs) : Agree(c, c.runs[i])
 Init == l = 0 /\ TLCSet(2, {}) /\ TLCSet(3, 0)
